@@ -153,6 +153,7 @@ def build_scenario(spec):
         k = int(rng.integers(1, max(2, V // 3 + 1)))
         S[tag + ".vsub"] = np.sort(rng.choice(V, size=k, replace=False))
         S[tag + ".vsub_list"] = [int(x) for x in rng.choice(V, size=min(V, 2), replace=False)]
+        S[tag + ".vsub_neg"] = np.array([0, -1] if V > 1 else [-1])      # python-style negative index in a caller-owned index array
         S[tag + ".esub"] = np.sort(rng.choice(E, size=int(rng.integers(1, E + 1)), replace=False))
         S[tag + ".emask"] = rng.integers(0, 2, size=E).astype(bool)
         S[tag + ".labV"], S[tag + ".labE"], S[tag + ".labP"] = rng.integers(0, 3, size=V), rng.integers(0, 3, size=E), rng.integers(0, 3, size=P)
@@ -278,7 +279,7 @@ OPS = {
     "graph_utils:get_edge_vectors": lambda S, T, r: {"vertex_index": V(0), "edge_indices": H("edges_of_vertex0"), "l": O(T + ".lat")},
     "graph_utils:adjacent_plaquettes": lambda S, T, r: {"lattice": O(T + ".lat"), "p_index": V(_ri(r, S[T + ".P"]))},
     "graph_utils:rotate": lambda S, T, r: {"vector": O("g.vec"), "angle": V(0.7)},
-    "graph_utils:vertices_to_polygon": lambda S, T, r: {"lattice": O(T + ".lat"), **({} if _ri(r, 3) == 0 else {"vertices": O(T + [".vsub", ".vsub_list"][_ri(r, 2)])})},
+    "graph_utils:vertices_to_polygon": lambda S, T, r: {"lattice": O(T + ".lat"), **({} if _ri(r, 3) == 0 else {"vertices": O(T + [".vsub", ".vsub_list", ".vsub_neg"][_ri(r, 3)])})},
     "graph_utils:dimerise": lambda S, T, r: {"lattice": O(T + ".lat"), "n_solutions": V([1, 3][_ri(r, 2)])},
     "graph_utils:lloyd_relaxation": lambda S, T, r: {"lattice": O(T + ".lat"), "n_steps": V(1)},
     "graph_utils:reorder_vertices": lambda S, T, r: {"lattice": O(T + ".lat"), "permutation": O(T + ".perm")},
